@@ -259,7 +259,8 @@ func c04(args []string) int {
 	// whatever the time budget cuts later.
 	fixed := seeds("W3 SW CL W1 CK:TRUNCATE START", "W3 SW RSET W1", "W3 SW W3 LC:TRUNCATE RSET", "W3 SW U S LC:TRUNCATE RSET",
 		"W3 SW CL W3 CK:RESTART W1 NEW", "W3 SW SAVEDB W1 CL SWAPDB START W1",
-		"W1 W1 W1 W1 W1 W1 W1 W1 W1 W1 W1 W1 SW CL CK:RESTART U CK:RESTART W3 NEW")
+		"W1 W1 W1 W1 W1 W1 W1 W1 W1 W1 W1 W1 SW CL CK:RESTART U CK:RESTART W3 NEW",
+		"W3 SW W1 CL W1 CK:TRUNCATE START")
 	layers := []Layer{
 		{Name: "regression/fixed-findings", Cfg: base, Alphabet: strings.Fields("W1 U SW"), Depth: 1, Seeds: fixed},
 		// run-time reset while the replica lags behind local syncs and checkpoints
@@ -269,6 +270,11 @@ func c04(args []string) int {
 		// one-frame bookkeeping file at the start of a restarted WAL; the application then restarts the WAL again
 		{Name: "seeded/nostore/down-after-own-checkpoint", Cfg: nostore, Alphabet: strings.Fields("W1 U CK:PASSIVE CK:TRUNCATE NEW SW"), Depth: d(4, 5),
 			Seeds: seeds("W3 SW LC:PASSIVE SW KILL", "W3 SW LC:TRUNCATE SW KILL", "W3 SW LC:PASSIVE SW CL"), Filter: g},
+		// the stop arrives with committed, unsynced transactions (the closing sync of Close has work to do and leaves
+		// its own bookkeeping behind), the application then writes / checkpoints / restarts the WAL while stopped,
+		// and the SAME object is started again (IPC stop/start) or a new process takes over
+		{Name: "seeded/store/stop-with-pending-writes", Cfg: base, Alphabet: strings.Fields("W1 U CK:TRUNCATE CK:RESTART CK:PASSIVE START NEW SW"), Depth: d(4, 5),
+			Seeds: seeds("W3 SW W1 CL", "W3 SW U S CL", "W3 SW LC:TRUNCATE W1 CL"), Filter: g},
 		{Name: "exact/store/lifecycle+reset", Cfg: base, Alphabet: alphaD, Depth: d(4, 6), Seeds: seeds("W3 SW", "W3 SW W1"), Filter: g},
 		{Name: "exact/nostore/lifecycle+meta", Cfg: nostore, Alphabet: alphaD2, Depth: d(4, 6), Seeds: seeds("W3 SW", "W3 W3 SW LC:TRUNCATE W1 SW"), Filter: g},
 		{Name: "exact/store/swapdb", Cfg: base, Alphabet: alphaSwap, Depth: d(5, 7), Seeds: seeds("W3 SW"), Filter: g},
